@@ -36,6 +36,8 @@ pub enum Op {
     /// an ordinary assertion, then a silent one (up = uv = false, nothing reported by the user
     /// step) and another silent one with seeded credential n, in one task
     AssertThenSilent(u8),
+    /// assertion whose allow list names seeded credentials 1 and 2 (one signs, the other is only looked up)
+    AssertListed12,
 }
 #[derive(Clone, Debug, Serialize, Deserialize, PartialEq, Eq, Hash)]
 pub struct Scenario {
@@ -119,6 +121,10 @@ where
         auth.set_make_credentials_with_signature_counter(true);
         let out = match op {
             Op::Assert(n) => match auth.get_assertion(ga_request(RP, Some(vec![cred_id(n)]), false, true, true, false, None)).await {
+                Ok(r) => Outcome::Asserted { cred: r.credential.map(|d| d.id.to_vec()).unwrap_or_default(), counter: r.auth_data.counter.unwrap_or(0) },
+                Err(e) => Outcome::Failed(e.into()),
+            },
+            Op::AssertListed12 => match auth.get_assertion(ga_request(RP, Some(vec![cred_id(1), cred_id(2)]), false, true, true, false, None)).await {
                 Ok(r) => Outcome::Asserted { cred: r.credential.map(|d| d.id.to_vec()).unwrap_or_default(), counter: r.auth_data.counter.unwrap_or(0) },
                 Err(e) => Outcome::Failed(e.into()),
             },
@@ -215,6 +221,23 @@ fn build(sc: &Scenario) -> (Vec<Task>, Results, Box<dyn Fn() -> Vec<Rec>>) {
         ("memory-flaky", lock) => {
             let m: MemoryStore = seeds().into_iter().map(|p| (p.credential_id.to_vec(), p)).collect();
             let inner = Yielding { inner: FlakyUpdate { inner: m, failed: Default::default() }, before: 1, after: 0 };
+            if lock == "mutex" {
+                go!(Arc::new(tokio::sync::Mutex::new(inner)))
+            } else {
+                go!(Arc::new(tokio::sync::RwLock::new(inner)))
+            }
+        }
+        // records from before items carried their relying party: rp_id is empty (the shipped store
+        // answers lookups by id whatever the record says)
+        ("memory-legacy", lock) => {
+            let m: MemoryStore = seeds()
+                .into_iter()
+                .map(|mut p| {
+                    p.rp_id = String::new();
+                    (p.credential_id.to_vec(), p)
+                })
+                .collect();
+            let inner = Yielding { inner: m, before: 1, after: 0 };
             if lock == "mutex" {
                 go!(Arc::new(tokio::sync::Mutex::new(inner)))
             } else {
@@ -343,6 +366,13 @@ pub fn scenarios(tier: Tier) -> Vec<(Scenario, Option<usize>)> {
             v.push((mk("assert(fails late)||assert(same)", vec![Op::AssertPrfFailsLate(1), Op::Assert(1)], "memory"), None));
             v.push((mk("prf-assert;prf-assert(mixed hmac configurations)", vec![Op::AssertTwicePrfMixedConfig], "memory"), None));
 
+            // an allow list with two matches: the credential that is only looked up belongs to the
+            // other ceremony for the duration (both ceremonies signing with the SAME credential is the known
+            // lost-update finding and stays with the scenarios that carry it) - on ordinary records and on legacy ones without rp_id
+            for st in ["memory", "memory-legacy"] {
+                v.push((mk("assert(list 1,2)||assert(2)", vec![Op::AssertListed12, Op::Assert(2)], st), None));
+                v.push((mk("assert(list 1,2)||assert(2)||register", vec![Op::AssertListed12, Op::Assert(2), Op::Register], st), Some(2)));
+            }
             let b3 = Some(tier.pick(2, 3));
             v.push((mk("assert;silent;silent||register", vec![Op::AssertThenSilent(1), Op::Register], "memory"), b3));
             v.push((mk("prf-assert;prf-assert(mixed hmac configurations)||assert(other)", vec![Op::AssertTwicePrfMixedConfig, Op::Assert(2)], "memory"), b3));
